@@ -399,9 +399,19 @@ class Gen:
         default gateway becomes the entry of the torus' gateway table, returned as gw_src / gw_dst of its local routes.
         Returns the number of netpoints created."""
         r = self.r
-        dims = r.choice([[2], [3], [4], [2, 2], [3, 2], [2, 3]])
-        t = self.zone(parent, "torus")
-        self.torus[t] = (dims, float(r.range(1, 4096)) / 4096.0)
+        if r.chance(1, 3):
+            # a fat tree (same ClusterBase leaves / gateway table): down;up;count per level, leaves = product of `down`
+            kind = "fattree"
+            down, up, cnt = r.choice([([2], [1], [1]), ([3], [1], [1]), ([4], [2], [1]), ([2, 2], [1, 2], [1, 1]),
+                                      ([2, 3], [1, 2], [1, 1]), ([3, 2], [1, 1], [1, 2])])
+            dims = down
+            spec = ";".join(",".join(map(str, v)) for v in (down, up, cnt))
+        else:
+            kind = "torus"
+            dims = r.choice([[2], [3], [4], [2, 2], [3, 2], [2, 3]])
+            spec = ",".join(map(str, dims))
+        t = self.zone(parent, kind)
+        self.torus[t] = (spec, float(r.range(1, 4096)) / 4096.0)
         n = 1
         for d in dims:
             n *= d
@@ -418,8 +428,8 @@ class Gen:
         if with_router:
             self.router(t)       # created after the last leaf: netpoint ids = leaf positions
             used += 1
-            self.feat.add("torus-with-router")
-        self.feat.add("torus-of-netzones-%s" % "x".join(map(str, dims)))
+            self.feat.add("cluster-with-router")
+        self.feat.add("%s-of-netzones-%s" % (kind, "x".join(map(str, dims))))
         return used
 
     def finish(self):
@@ -447,9 +457,9 @@ class Gen:
         fl = lambda c: " ".join(repr(float(x)) for x in c)
         for z, Z in self.zones.items():
             extra = ""
-            if Z["kind"] == "torus":
-                dims, lat = self.torus[z]
-                extra = " %s %s" % (",".join(map(str, dims)), lat.hex())
+            if Z["kind"] in ("torus", "fattree"):
+                spec, lat = self.torus[z]
+                extra = " %s %s" % (spec, lat.hex())
             if z in self.coords:
                 extra += " " + fl(self.coords[z])
             L.append("zone %d %s %s%s" % (z, "-" if Z["parent"] is None else Z["parent"], Z["kind"], extra))
@@ -551,15 +561,22 @@ def load_corpus(path):
 
 def run(ctx):
     ctx.cov["rule"] = ("platforms drawn from splitmix64(VERIF_SEED, index): 1-3 levels below the root, <= 40 hosts, zone kinds "
-                       "Full/Floyd/Dijkstra/DijkstraCache/Star/Empty/Vivaldi, symmetric / one-way / missing routes, 1-3 links per "
+                       "Full/Floyd/Dijkstra/DijkstraCache/Star/Empty/Vivaldi (leaf, mid-level and top, with child zones) and "
+                       "Torus zones whose leaves are netzones (netzone callback; with and without a router towards the outside), "
+                       "symmetric / one-way / missing routes, 1-3 links per "
                        "route, explicit / single-host / single-router / absent default gateways, bypass routes (direct and "
-                       "between zones at different depths); non-trivial = distinct (platform, src, dst) with src != dst whose "
-                       "implementation route has >= 1 link")
+                       "between zones at different depths), Vivaldi coordinates in an exact lane (perfect squares, dyadic terms) "
+                       "and an arbitrary lane (negative heights, routers, zones); non-trivial = distinct (platform, src, dst) "
+                       "with src != dst whose implementation route has >= 1 link")
     ctx.assumptions += ["each zone's local routing function is taken as observed (get_local_route on every vertex pair); "
                         "C25/C26 cover what is inside the zones",
-                        "Vivaldi coordinate terms are compared with an absolute tolerance of 2^-34 s (sqrt and /1000 are inexact); "
-                        "all other latencies are dyadic and compared exactly",
-                        "Cluster/Torus/FatTree/Dragonfly/Wifi leaf zones are not generated here (their local routing is C26)"]
+                        "Star and Vivaldi zones are an exception: their answers (links, gateways, coordinate term) are recomputed "
+                        "by the model from the declared routes and the coordinates read back from the library",
+                        "Vivaldi coordinate terms: exact lane (collinear Pythagorean coordinates, steps of 125/2^j ms) compared "
+                        "exactly; other coordinates compared with the rational bracket of the model's term widened by 2^-40 s "
+                        "(rounding of the library's double arithmetic); all other latencies are dyadic and compared exactly",
+                        "cluster-like zones: Torus zones with netzone leaves are generated (their local routing itself is "
+                        "observed: C26); FatTree/Dragonfly/Wifi zones are not generated here (same ClusterBase gateway code)"]
     ctx.ensure_simgrid(["simgrid"])
     ctx.lean_prove()
     drv = ctx.lean_exe()
